@@ -26,8 +26,22 @@ type putRec struct {
 
 type recorder struct {
 	chain.Store
-	mu   sync.Mutex
-	puts []putRec
+	mu    sync.Mutex
+	puts  []putRec
+	lasts int // Last() calls seen (Run asks for the last beacon when it takes a request)
+}
+
+func (r *recorder) Last(ctx context.Context) (*common.Beacon, error) {
+	r.mu.Lock()
+	r.lasts++
+	r.mu.Unlock()
+	return r.Store.Last(ctx)
+}
+
+func (r *recorder) lastCalls() int {
+	r.mu.Lock()
+	defer r.mu.Unlock()
+	return r.lasts
 }
 
 func (r *recorder) Put(ctx context.Context, b *common.Beacon) error {
